@@ -882,6 +882,9 @@ struct Concrete {
     h1_bytes: Vec<u8>,
     h2: H2Probe,
     pipelined: bool,
+    /// the sentinel goes FIRST (H1: pipelined in front of the probe, which is then parsed on sozu's keep-alive /
+    /// pipelining path; H2: on the lower stream id)
+    sentinel_first: bool,
     cuts: Vec<usize>,
     /// concrete request-target the probe carries (what a backend must read if it is forwarded)
     target: String,
@@ -902,7 +905,8 @@ fn host_spelling(rng: &mut Rng, name: &str, host: &str) -> String {
     let n = rng.pick(&["Host", "host", "HOST", "hOsT"]);
     let _ = name;
     let sep = rng.pick(&[": ", ":", ":  ", ":\t"]);
-    let h = host.to_string(); // (upper-case host names are not routed by sozu: a C04 matter, kept out of here)
+    // (upper-case host names are not routed by sozu: a C04 matter, kept out of here)
+    let h = if rng.chance(20) { format!("{host}:{}", rng.pick(&["80", "8080", "443"])) } else { host.to_string() };
     format!("{n}{sep}{h}\r\n")
 }
 
@@ -924,7 +928,7 @@ fn h1_body_plan(c: &Value, code: &Value) -> (&'static str, usize) {
     ("none", 0)
 }
 
-fn concretise_h1(c: &Value, code: &Value, lane: &Lane, rng: &mut Rng) -> Concrete {
+fn concretise_h1(c: &Value, code: &Value, lane: &Lane, rng: &mut Rng, allow_pipelining: bool) -> Concrete {
     let mut names: Vec<String> = vec!["host".into()];
     let mut desc = String::new();
     let path = rng.pick(&["/p", "/p", "/p?x=1", "/p/q.html"]).to_string();
@@ -973,6 +977,7 @@ fn concretise_h1(c: &Value, code: &Value, lane: &Lane, rng: &mut Rng) -> Concret
             "badname" => format!("{}: b\r\n", rng.pick(&["X/A", "X\"A", "", "X(A", "X@A", "X A", "X\u{e9}"])),
             "conn:close" => { names.push("connection".into()); format!("{}: {}\r\n", rng.pick(&["Connection", "connection"]), rng.pick(&["close", "Close"])) }
             "conn:keepalive" => { names.push("connection".into()); "Connection: keep-alive\r\n".to_string() }
+            "cookie" => { names.push("cookie".into()); format!("{}: {}\r\n", rng.pick(&["Cookie", "cookie"]), rng.pick(&["a=b", "a=b; c=d", "a=b;c=d; e", "a=\"b c\"; SOZUBALANCEID=x"])) }
             other => format!("X-Unknown-Token: {other}\r\n"),
         };
         lines.push(l);
@@ -1016,18 +1021,24 @@ fn concretise_h1(c: &Value, code: &Value, lane: &Lane, rng: &mut Rng) -> Concret
     }
     let mut bytes = bytes_of(&head);
     bytes.extend_from_slice(&wire_body);
-    let pipelined = rng.chance(60);
+    let pipelined = rng.chance(60) && allow_pipelining;
+    let sentinel_first = pipelined && rng.chance(35);
+    if sentinel_first {
+        let mut b2 = sentinel_h1(lane);
+        b2.extend_from_slice(&bytes);
+        bytes = b2;
+    }
     // seeded segmentation: none / a few random cut points / every CRLF
     let mut cuts = Vec::new();
     match rng.below(4) {
         0 => {}
         1 => { for _ in 0..1 + rng.below(3) { cuts.push(1 + rng.below(bytes.len().max(2) - 1)); } }
-        2 => { cuts.push(head.len().min(bytes.len())); }
+        2 => { if let Some(p) = bytes.windows(4).position(|w| w == b"\r\n\r\n") { cuts.push(p + 4); } }
         _ => { for (i, w) in bytes.windows(2).enumerate() { if w == b"\r\n" && rng.chance(50) { cuts.push(i + 1 + rng.below(2)); } } }
     }
     cuts.sort(); cuts.dedup(); cuts.retain(|&x| x > 0 && x < bytes.len());
-    desc.push_str(&format!("pipelined={pipelined} cuts={cuts:?}"));
-    Concrete { h1_bytes: bytes, h2: H2Probe::default(), pipelined, cuts, target, body, names, trailers, desc }
+    desc.push_str(&format!("pipelined={pipelined} sentinel_first={sentinel_first} cuts={cuts:?}"));
+    Concrete { h1_bytes: bytes, h2: H2Probe::default(), pipelined, sentinel_first, cuts, target, body, names, trailers, desc }
 }
 
 fn concretise_h2(c: &Value, lane: &Lane, rng: &mut Rng) -> Concrete {
@@ -1073,6 +1084,7 @@ fn concretise_h2(c: &Value, lane: &Lane, rng: &mut Rng) -> Concrete {
             "val:cr" => ("x-a".into(), rng.pick(&["1\rx-injected: 1", "1\r", "\r1"]).into()),
             "val:lf" => ("x-a".into(), rng.pick(&["1\nx-injected: 1", "1\r\nx-injected: 1", "1\r\n\r\nGET /smuggled HTTP/1.1\r\nHost: x\r\n\r\n", "1\r\ntransfer-encoding: chunked"]).into()),
             "val:nul" => ("x-a".into(), rng.pick(&["1\u{0}", "\u{0}", "1\u{0}2"]).into()),
+            "cookie" => { if rng.chance(50) { names.push("cookie".into()); regs.push((b("cookie"), b("z=9"))); } ("cookie".into(), rng.pick(&["a=b", "a=b; c=d", "a=b;c=d"]).into()) }
             _ => (rng.pick(&["x-plain", "accept", "user-agent"]).into(), "v".into()),
         };
         names.push(k.to_ascii_lowercase());
@@ -1121,9 +1133,10 @@ fn concretise_h2(c: &Value, lane: &Lane, rng: &mut Rng) -> Concrete {
     pr.split_continuation = rng.chance(30);
     pr.pad_data = rng.chance(30);
     pr.gap_ms = if rng.chance(50) { 0 } else { 25 };
-    let desc = format!("cont={} pad={} gap={}ms", pr.split_continuation, pr.pad_data, pr.gap_ms);
+    let sentinel_first = rng.chance(30);
+    let desc = format!("cont={} pad={} gap={}ms sentinel_first={sentinel_first}", pr.split_continuation, pr.pad_data, pr.gap_ms);
     let trailers = if matches!(tr, "plain" | "ident") { vec!["x-t".to_string()] } else if tr == "framing" { vec!["x-t".to_string(), "content-length".into(), "host".into()] } else { vec![] };
-    Concrete { h1_bytes: vec![], h2: pr, pipelined: true, cuts: vec![], target, body, names, trailers, desc }
+    Concrete { h1_bytes: vec![], h2: pr, pipelined: true, sentinel_first, cuts: vec![], target, body, names, trailers, desc }
 }
 
 // =====================================================================================
@@ -1222,7 +1235,13 @@ fn judge(lane: &Lane, case: &Value, conc: &Concrete, cobs: &ClientObs, bobs: &Ba
     // (3) per class
     let partials: Vec<&(String, usize, String, String)> = bobs.anomalies.iter().filter(|a| a.2.starts_with("partial")).collect();
     if class == "fwd" {
-        let lists: Vec<Vec<Value>> = adm["fwd"].as_array().unwrap().iter().map(|l| l.as_array().unwrap().iter().map(|r| if h2c { strip_framing(r) } else { r.clone() }).collect()).collect();
+        let mut lists: Vec<Vec<Value>> = adm["fwd"].as_array().unwrap().iter().map(|l| l.as_array().unwrap().iter().map(|r| if h2c { strip_framing(r) } else { r.clone() }).collect()).collect();
+        if h2c && front == "h1" { for l in lists.iter_mut() { l.retain(|r| r["target"] != "/sentinel"); } }
+        if conc.sentinel_first {
+            // the sentinel went first: it is served whatever the probe says about the connection afterwards
+            let sent = json!({"method": "GET", "target": "/sentinel", "host": "a", "framing": if h2c { "h2" } else if front == "h1" { "none" } else { "cl" }, "len": 0});
+            for l in lists.iter_mut() { if !l.iter().any(|r| r["target"] == "/sentinel") { l.push(sent.clone()); } }
+        }
         let mut obs_sorted: Vec<String> = observed_list.iter().map(|v| v.to_string()).collect();
         obs_sorted.sort();
         let ok = lists.iter().any(|l| { let mut e: Vec<String> = l.iter().map(|v| v.to_string()).collect(); e.sort(); e == obs_sorted });
@@ -1257,7 +1276,7 @@ fn judge(lane: &Lane, case: &Value, conc: &Concrete, cobs: &ClientObs, bobs: &Ba
         }
         // ... and only the sentinel may have been served (never on H1: a framing error closes the connection)
         let sentinels = complete.iter().filter(|r| r.target == "/sentinel").count();
-        if front == "h1" && sentinels > 0 { out.push(Verdict { class: "served-after-reject".into(), detail: ctx(json!({"sentinels": sentinels})) }); }
+        if front == "h1" && sentinels > 0 && !conc.sentinel_first { out.push(Verdict { class: "served-after-reject".into(), detail: ctx(json!({"sentinels": sentinels})) }); }
         if sentinels > 1 { out.push(Verdict { class: "extra-request".into(), detail: ctx(json!({"sentinels": sentinels})) }); }
         // (after RST_STREAM sozu may answer frames still in flight on that stream with GOAWAY(STREAM_CLOSED):
         //  the sentinel is then not served; that is H2 robustness, C14/C15, not a boundary disagreement)
@@ -1278,19 +1297,28 @@ fn run_case(env: &Env, lane: &Lane, case: &Value, seed: u64, idx: u64, variant: 
     let epoch = lane.epoch.fetch_add(1, Ordering::SeqCst) + 1;
     let wait = Duration::from_millis(wait_ms);
     let (conc, cobs, sent) = if c["front"] == "h1" {
-        let mut conc = concretise_h1(c, &case["code"], lane, &mut rng);
-        if h2c { conc.pipelined = false; }
+        // (H1 front -> h2c backend: a pipelined second request is never answered - C02's subject - so no pipelining there)
+        let conc = concretise_h1(c, &case["code"], lane, &mut rng, !h2c);
         let mut segs: Vec<Vec<u8>> = Vec::new();
         let mut prev = 0;
         for &cut in &conc.cuts { segs.push(conc.h1_bytes[prev..cut].to_vec()); prev = cut; }
         segs.push(conc.h1_bytes[prev..].to_vec());
-        let expect = if case["code"]["cls"] == "fwd" { case["code"]["understood"].as_array().map(|a| a.len()).unwrap_or(1).max(1) } else { 1 };
-        let cobs = h1_client(env.front_h1, &segs, &sentinel_h1(lane), conc.pipelined, expect, wait);
+        let mut expect = if case["code"]["cls"] == "fwd" { case["code"]["understood"].as_array().map(|a| a.len()).unwrap_or(1).max(1) } else { 1 };
+        // H1 front -> h2c backend: the SECOND request of a keep-alive connection is always answered 502 by sozu
+        // (the reused stream slot keeps back_received_end_of_stream: "CANNOT RECEIVE Headers ON THIS STREAM", GOAWAY to the
+        // backend) and, rarely, the header block re-encoded after that reaches the backend out of HPACK sync. That is C02's
+        // subject (every request gets its answer); this leg checks what mux/converter.rs writes for the probe, without sentinel.
+        let sent_after: Vec<u8> = if conc.sentinel_first { expect = 2; vec![] } else if h2c { expect = 1; vec![] } else { sentinel_h1(lane) };
+        let mut cobs = h1_client(env.front_h1, &segs, &sent_after, conc.pipelined, expect, wait);
+        if conc.sentinel_first {
+            // the first answer is the sentinel's: what is judged is the answer to the probe
+            if !cobs.statuses.is_empty() { cobs.statuses.remove(0); cobs.answered_by.remove(0); }
+        }
         let sent = lossy(&conc.h1_bytes);
         (conc, cobs, sent)
     } else {
         let conc = concretise_h2(c, lane, &mut rng);
-        let cobs = h2_client(env.front_h2, &conc.h2, &sentinel_h2(lane), false, wait);
+        let cobs = h2_client(env.front_h2, &conc.h2, &sentinel_h2(lane), conc.sentinel_first, wait);
         let sent = format!("headers={:?} data={:?} trailers={:?} es_on_headers={}",
             conc.h2.headers.iter().map(|(k, v)| format!("{}: {}", lossy(k), lossy(v))).collect::<Vec<_>>(),
             conc.h2.data.iter().map(|(d, es)| format!("{}{}", lossy(d), if *es { "/ES" } else { "" })).collect::<Vec<_>>(),
@@ -1347,6 +1375,7 @@ fn replay(seed: u64, nlanes: usize, backend_kind: &'static str, variants: u64, d
                     while (o.class == "hang" || o.bobs.anomalies.iter().any(|a| a.2 == "harness-barrier-timeout")) && again < 2 {
                         again += 1;
                         n_retries.fetch_add(1, Ordering::Relaxed);
+                        eprintln!("retry ({}) case={} how={} client={:?}/{:?} closed={} timed_out={}", o.class, case["c"], o.conc_desc, o.cobs.statuses, o.cobs.answered_by, o.cobs.closed, o.cobs.timed_out);
                         o = run_case(&env, &lane, case, seed, ci, variant, &deviations, 8000);
                     }
                     if o.bobs.anomalies.iter().any(|a| a.2 == "harness-barrier-timeout") {
@@ -1360,6 +1389,7 @@ fn replay(seed: u64, nlanes: usize, backend_kind: &'static str, variants: u64, d
                     while matches!(o.class.as_str(), "r502" | "r503" | "r504") && o.bobs.reqs.is_empty() && o.bobs.raw.iter().all(|r| r.2.is_empty()) && tries < 4 {
                         tries += 1;
                         n_retries.fetch_add(1, Ordering::Relaxed);
+                        eprintln!("retry ({}) case={} how={}", o.class, case["c"], o.conc_desc);
                         std::thread::sleep(Duration::from_millis(120 * tries));
                         o = run_case(&env, &lane, case, seed, ci, variant, &deviations, 4000);
                     }
